@@ -39,7 +39,7 @@ CHECKS = {
     'C08': dict(
         text='Voxel binning is specified in integers (n = L div res, Bin(k,n,N) = floor(k n / N), Density as a set of (voxel,count)); TLC evaluates the round-trip and resolution-band lemmas over their whole small domains and judges recorded trajectory_to_volume results (6 cell families x 3 orientations, unequal axes, samples on and off voxel edges) voxel by voxel.',
         note='Trusted: TLC; integer cell lengths; L/res kept 0.02 from integers; on-edge samples only for power-of-two voxel counts.',
-        ref='DESIGN.md 8/C08', technique='TLA+ spec Grid.tla (NVox, Bin, Density, RoundTrip, ResolutionBand); TLC lemma evaluation + trace validation (TraceGrid.tla)'),
+        ref='DESIGN.md 8/C08', technique='TLA+ spec Grid.tla (NVox, Bin, Density, RoundTrip, ResolutionBand); TLAPS proof of the two integer lemmas for all naturals (GridLemmas.tla) + TLC lemma evaluation + trace validation (TraceGrid.tla)'),
     'C09': dict(
         text='The free-energy node set and the inverse-image relation total*exp(-F/kT) = count are TLA+ predicates over integer density grids; TLC judges recorded get_free_energy / free_energy_graph results for finiteness, exact node set, recovery of every integer count, monotonicity and prohibitive unvisited voxels.',
         note='Trusted: TLC; ln is checked only through its inverse on integer counts (alpha with scipy k_B, relative 1e-6).',
@@ -96,6 +96,8 @@ NOT_APPLICABLE = {}
 ENGINES = [
     {'name': 'tlc', 'path': '/opt/veriftools/tla/tla2tools.jar', 'serves_properties': sorted(CHECKS),
      'kind_free_text': 'TLC 1.8 explicit-state model checker: exhaustive MC_* instances, behaviour export (PrintT/ToJson), trace specs reading ndjson'},
+    {'name': 'tlaps', 'path': '/opt/veriftools/tlapm', 'serves_properties': ['C08'],
+     'kind_free_text': 'TLA+ proof system 1.6 (tlapm): unbounded proofs of the integer lemmas of C08 (spec/GridLemmas.tla), in addition to TLC'},
     {'name': 'harness', 'path': 'harness/', 'serves_properties': sorted(CHECKS),
      'kind_free_text': 'Python 3.12 (/venv) drivers of the public gemdat API, exact-lattice generators, abstraction functions, TLC runner'},
 ]
